@@ -37,6 +37,15 @@ func genScenarios(r *rng) []*scenario {
 					out = append(out, genOutbox(r, ty, k))
 				}
 			}
+		case "authority":
+			for _, ty := range []string{"Update", "Delete", "Accept", "Undo"} {
+				for i := 0; i < *pubN; i++ {
+					k++
+					sc := genInbox(r, ty, k)
+					sc.Family = "authority:" + ty
+					out = append(out, sc)
+				}
+			}
 		case "effects":
 			for _, ty := range []string{"Update", "Delete", "Add", "Remove", "Like", "Block"} {
 				for i := 0; i < *pubN; i++ {
